@@ -6,6 +6,7 @@
    guard, an early return, a dropped or reordered statement, or a changed argument makes one of
    these equations false, and the build of Props/C05.vo and Props/C06.vo stops here. *)
 From Coq Require Import ZArith List Lia.
+Import ListNotations.
 From Mds Require Import Gen.HeapqIdx.
 Local Open Scope Z_scope.
 
